@@ -143,6 +143,17 @@ func c09EvalHistory(w *mc.W, h c09History) {
 	var detached []*wire.MsgFilterLoad // messages no longer loaded, with their expected bytes
 	var detachedWant [][]byte
 	loaded := true
+	// Arguments travel through ONE variable per kind for the whole history, refilled before each call
+	// (a caller's loop variable, a reused buffer): what the filter does depends on the contents at the
+	// time of the call, not on the address it has seen before, and it keeps nothing that the next
+	// refill would change.
+	var argOP wire.OutPoint
+	var argHash chainhash.Hash
+	argBuf := make([]byte, 0, 8192)
+	item := func(name string) []byte {
+		argBuf = append(argBuf[:0], c09Item(name)...)
+		return argBuf
+	}
 	msgPanic, p := mc.Guard(func() {
 		if f == nil {
 			f = bloom.LoadFilter(msg)
@@ -176,30 +187,37 @@ func c09EvalHistory(w *mc.W, h c09History) {
 					fail("msgfilterload-returns-wrong-message", where)
 				}
 			case len(op) > 4 && op[:4] == "add:":
-				f.Add(c09Item(op[4:]))
+				f.Add(item(op[4:]))
 				if loaded {
 					model.Insert(c09Item(op[4:]))
 				}
-			case op == "addhash":
-				f.AddHash(c09Hash(1))
+			case op == "addhash" || op == "addhash2":
+				k := 1
+				if op == "addhash2" {
+					k = 2
+				}
+				argHash = *c09Hash(k)
+				f.AddHash(&argHash)
 				if loaded {
-					model.Insert(c09Hash(1)[:])
+					model.Insert(c09Hash(k)[:])
 				}
 			case len(op) > 6 && op[:6] == "addop:":
 				o := c09OutPoint(op[6:])
-				f.AddOutPoint(o)
+				argOP = *o
+				f.AddOutPoint(&argOP)
 				if loaded {
 					model.Insert(ref.OutPointBytes(o.Hash, o.Index))
 				}
 			case len(op) > 2 && op[:2] == "m:":
-				got := f.Matches(c09Item(op[2:]))
+				got := f.Matches(item(op[2:]))
 				want := loaded && model.Contains(c09Item(op[2:]))
 				if got != want {
 					fail("matches-answer-differs-from-bip37", fmt.Sprintf("%s: got %v want %v", where, got, want))
 				}
 			case len(op) > 4 && op[:4] == "mop:":
 				o := c09OutPoint(op[4:])
-				got := f.MatchesOutPoint(o)
+				argOP = *o
+				got := f.MatchesOutPoint(&argOP)
 				want := loaded && model.Contains(ref.OutPointBytes(o.Hash, o.Index))
 				if got != want {
 					fail("matchesoutpoint-answer-differs-from-bip37", fmt.Sprintf("%s: got %v want %v", where, got, want))
@@ -469,6 +487,32 @@ func runC09(c *mc.Ctx) {
 		w.Nontrivial(mc.HashString(fmt.Sprint(single[i])))
 	})
 
+	// (1c) different contents through the same argument variable: every sequence of <= 3 (4) operations
+	// over outpoints with three different hashes, two hashes and two items
+	{
+		am := []string{"addop:oM", "addop:oN", "addop:oH", "mop:oM", "mop:oN", "mop:oH", "addhash", "addhash2", "add:33h", "add:32", "m:33h", "m:32"}
+		var hs []c09History
+		for _, cfg := range []c09Config{{Bytes: 64, HashFuncs: 3, Tweak: 5, Flags: 1}, {Bytes: 3, Prefill: 0, HashFuncs: 8, Tweak: 0xffffffff, Flags: 0}} {
+			var rec func(ops []string)
+			rec = func(ops []string) {
+				if len(ops) > 0 {
+					hs = append(hs, c09History{Cfg: cfg, Ops: append([]string{}, ops...)})
+				}
+				if len(ops) == mc.Pick(c, 3, 4) {
+					return
+				}
+				for _, a := range am {
+					rec(append(ops, a))
+				}
+			}
+			rec(nil)
+		}
+		c.Space("histories of <= 3 (4) operations over outpoints with three different hashes, two hashes and two items passed through one argument variable", int64(len(hs)))
+		c.ParFor(int64(len(hs)), func(w *mc.W, i int64) {
+			w.State()
+			c09EvalHistory(w, hs[i])
+		})
+	}
 	// (2) all histories over the 12-op menu
 	menu := []string{"add:5", "add:0", "add:33h", "addhash", "addop:oM", "m:5", "m:7h", "mop:oM", "reload", "unload", "isloaded", "msg"}
 	depth := mc.Pick(c, 4, 5)
